@@ -172,6 +172,12 @@ class Ctx:
     def fresh_build_dir(self):
         shutil.rmtree(self.build, ignore_errors=True)
         os.makedirs(self.build, exist_ok=True)
+        import glob
+        for f in glob.glob(os.path.join(VERIF, "replays", self.pid + "-*.json")):
+            try:
+                os.remove(f)
+            except OSError:
+                pass
 
     def log(self, *a):
         msg = " ".join(str(x) for x in a)
